@@ -20,6 +20,7 @@ import (
 	"fmt"
 	"net"
 	"net/netip"
+	"runtime"
 	"sort"
 	"strings"
 	"sync"
@@ -311,14 +312,17 @@ func (w *c08World) clook(t int64, key, qname string, qtype uint16, g int) {
 	c08SleepUntil(t)
 	op := fmt.Sprintf("clook t=%d key=%s g=%d", t, c08Hex(key), g)
 	out := VRecover(func() string {
-		var hits, rf atomic.Int64
-		start := make(chan struct{})
+		var hits, rf, ready atomic.Int64
 		var wg sync.WaitGroup
 		for i := 0; i < g; i++ {
 			wg.Add(1)
 			go func() {
 				defer wg.Done()
-				<-start
+				// spin barrier: all goroutines leave it within a few nanoseconds of each other
+				ready.Add(1)
+				for ready.Load() < int64(g) {
+					runtime.Gosched()
+				}
 				h := w.lookupRaw(key, qname, qtype, false)
 				if h.hit {
 					hits.Add(1)
@@ -328,7 +332,6 @@ func (w *c08World) clook(t int64, key, qname string, qtype uint16, g int) {
 				}
 			}()
 		}
-		close(start)
 		wg.Wait()
 		return fmt.Sprintf("hits=%d rf=%d", hits.Load(), rf.Load())
 	})
@@ -903,6 +906,25 @@ func c08Findings(t *testing.T, st *VStream, stats *VStats, log *logrus.Logger) {
 	})
 }
 
+// c08RaceStream: many goroutines hit one freshly expired entry at the same instant; exactly one of
+// them may be told to refresh (the CAS on `refreshing`).  One round = one `ins` + one `clook` line.
+func c08RaceStream(t *testing.T, st *VStream, stats *VStats, log *logrus.Logger, rounds int) {
+	synctest.Test(t, func(t *testing.T) {
+		w := &c08World{log: log, st: st, stats: stats}
+		w.cfg(c08Cfg{opt: true, stale: 60})
+		defer func() { _ = w.c.Close() }()
+		now := time.Now().UnixNano()
+		for i := 0; i < rounds; i++ {
+			name := fmt.Sprintf("r%d.test", i%50)
+			key := w.realKey(name, 1, c08Routes()[0])
+			now += c08Sec
+			w.ins(now, key, name, 1, 0, i%60000, 1, 0) // TTL 0: expired at once, inside the stale window
+			w.clook(now, key, name, 1, 24+i%24)
+			stats.Inc("race.rounds")
+		}
+	})
+}
+
 func c08HeapStream(r *VRand, st *VStream, stats *VStats, n int) {
 	for it := 0; it < n; it++ {
 		sz := r.Intn(14)
@@ -969,9 +991,9 @@ func TestVerifC08(t *testing.T) {
 	// the real janitor goroutine must not fire on its own: the histories decide when it runs
 	dnsCacheJanitorInterval = 24 * 365 * 50 * time.Hour
 
-	nHist, nOps, nHeap, nKeys := VEnvInt("C08_HIST", 250), 60, 600, 400
+	nHist, nOps, nHeap, nKeys, nRace := VEnvInt("C08_HIST", 250), 60, 600, 400, VEnvInt("C08_RACE", 400)
 	if VThorough() {
-		nHist, nOps, nHeap, nKeys = VEnvInt("C08_HIST", 2500), 140, 6000, 4000
+		nHist, nOps, nHeap, nKeys, nRace = VEnvInt("C08_HIST", 2500), 140, 6000, 4000, VEnvInt("C08_RACE", 6000)
 	}
 
 	synctest.Test(t, func(t *testing.T) {
@@ -983,6 +1005,7 @@ func TestVerifC08(t *testing.T) {
 	c08HeapStream(r.Fork(), st, stats, nHeap)
 	c08Directed(t, st, stats, log)
 	c08Findings(t, st, stats, log)
+	c08RaceStream(t, st, stats, log, nRace)
 	for i := 0; i < nHist; i++ {
 		n := nOps
 		if i%10 == 0 {
